@@ -61,3 +61,12 @@ func (q *verifSendQueue) Close() {}
 
 // VerifWarpConn exposes warpConn (bot/client.go): the concurrently usable Conn with its receive and send goroutines.
 func VerifWarpConn(c *mcnet.Conn, qr, qw queue.Queue[pk.Packet]) *Conn { return warpConn(c, qr, qw) }
+
+// VerifJoinConfiguration exposes the configuration stage (bot/configuration.go: joinConfiguration) on a given
+// connection (X11): the loop that reads clientbound configuration packets until FinishConfiguration / Disconnect / error.
+func VerifJoinConfiguration(c *Client, conn *mcnet.Conn) error { return c.joinConfiguration(conn) }
+
+// VerifResourcePacks answers a copy of the resource packs a DefaultConfigHandler holds, oldest first (X11).
+func VerifResourcePacks(d *DefaultConfigHandler) []ResourcePack {
+	return append([]ResourcePack(nil), d.resourcesPack...)
+}
